@@ -37,6 +37,10 @@ structure Srv where
 inductive Radius where | accept | reject | down
   deriving Repr, DecidableEq
 
+/-- what the PAP request carries as password (the harness' RADIUS stub does not look at it, the server does) -/
+inductive Pw where | good | bad | empty
+  deriving Repr, DecidableEq
+
 inductive LcpKind where | creq | cack | cnak | term | echo
   deriving Repr, DecidableEq
 inductive IpcpKind where | creqIp | creqDns | creqNone | cack
@@ -47,7 +51,7 @@ inductive In where
   | padr (m : Nat) (cookie : Bool)
   | padt (m sid : Nat)
   | lcp (m sid : Nat) (k : LcpKind)
-  | pap (m sid : Nat) (good : Bool) (r : Radius)
+  | pap (m sid : Nat) (pw : Pw) (r : Radius)
   | ipcp (m sid : Nat) (k : IpcpKind)
   | ip (m sid : Nat)
   | sweep
@@ -104,7 +108,8 @@ def ownerGate (s : Srv) (m sid : Nat) : Option Sess :=
   | none => none
 
 /-- the outcome of a PAP exchange: RADIUS decides when one is configured, otherwise everybody is accepted -/
-def papOk (s : Srv) (r : Radius) : Bool := if s.radius then decide (r = .accept) else true
+def papOk (s : Srv) (pw : Pw) (r : Radius) : Bool :=
+  if s.radius then decide (pw ≠ .empty) && decide (r = .accept) else true
 
 def step (s : Srv) : In → Srv × List Out
   | .padi m => (s, [.pado m])
@@ -136,11 +141,11 @@ def step (s : Srv) : In → Srv × List Out
       | .term =>
         let s1 := poolRelease s x.serial
         ({ s1 with sessions := AMap.erase s1.sessions sid }, [.lcptack sid x.mac])
-  | .pap m sid _ r =>
+  | .pap m sid pw r =>
     match ownerGate s m sid with
     | none => (s, [])
     | some x =>
-      if papOk s r then
+      if papOk s pw r then
         let (s1, ip) := poolAllocate s x.serial
         let x1 : Sess := { x with authed := true, state := .ipcp, ip := ip, everAuthed := true }
         (setSess s1 sid x1, if ip.isSome then [.papack sid x.mac, .ipcpreq sid x.mac] else [.papack sid x.mac])
